@@ -95,14 +95,14 @@ HOOK_COMMITS = ["6203c3e4032b5e35344eee56bc8020982a6abdeb"]
 MANIFEST_TEXT = {
     "C07": dict(
         engine="rapidcheck + deterministic scheduler",
-        technique="schedule exploration with virtual time on the deterministic scheduler; history invariants over the execution trace (submission returns, applied calls, backend fsync, thread activity) + deadlock/no-progress detection",
+        technique="schedule exploration with virtual time on the deterministic scheduler (sampled schedules with time jumps and I/O latencies + bounded-preemption enumeration on tiny programs); history invariants over the execution trace (submission returns, applied calls, backend fsync, thread activity) + deadlock/no-progress detection",
         level_text="Programs with flushes throughout and one or two application threads run under generated schedules in which the queue is often full and the 5 s send / 20 s flush timeouts fire in virtual time. A successful flush must be preceded by the application of every data call that had returned before it started and by a backend fsync after the last of them; close must leave every accepted call applied, the writer thread finished and a well-formed closed file; the scheduler aborts with a verdict on deadlock or when 3e6 steps do not finish the program.",
-        level_note="Trusted: vsched.cpp; the trace order of a serialised execution. Sampling of schedules."),
+        level_note="Trusted: vsched.cpp; the trace order of a serialised execution. Schedules are sampled; in addition every schedule with at most 2 (thorough: 3) preemptions of six tiny programs with flushes is enumerated (three-thread program: 1 / 2), without time jumps."),
     "C06": dict(
         engine="rapidcheck + deterministic scheduler",
-        technique="schedule exploration on a deterministic scheduler with virtual time (interposed pthread/sleep/clock, queue, memcpy and I/O points) x generated programs; differential against the synchronous writer; history invariants over the execution trace",
+        technique="schedule exploration on a deterministic scheduler with virtual time (interposed pthread/sleep/clock, queue, memcpy and I/O points): sampled schedules x generated programs (shrinking) + bounded-preemption enumeration of all schedules of tiny programs; differential against the synchronous writer; history invariants over the execution trace",
         level_text="Library threads and application threads are real pthreads serialised by a baton; the generated choice vector decides who runs at every lock/unlock/wait/signal/sleep, queue operation, half-copied message and backend I/O call, time jumps let sleepers overtake and per-I/O latencies of 6 s/25 s fire the 5 s send and 20 s flush timeouts in virtual time. Checked per run: applied calls == accepted submissions per producer in order (nothing lost, duplicated, reordered; rejected calls leave no trace), file content == synchronous reference (dump + decoder), queue operations only under the queue lock, writer calls only under the process lock, deadlock / no-progress detection.",
-        level_note="Trusted: sched.cpp (about 400 lines), the synchronous writer as reference (C01-C05). Sampling of schedules, not enumeration."),
+        level_note="Trusted: vsched.cpp (about 450 lines), the synchronous writer as reference (C01-C05). Schedules are sampled; in addition every schedule with at most 2 (thorough: 3) preemptions of five tiny programs is enumerated (three-thread program: 1 / 2), see coverage.exhaustive_subspace in the evidence."),
     "C10": dict(
         engine="rapidcheck + libFuzzer",
         technique="structure-aware API-sequence fuzzing: one decoder from a tape of choices to call sequences over the whole public surface, driven by rapidcheck (shrinking) and by libFuzzer (coverage guidance), ASan/LSan + return-code oracle inside the target",
